@@ -52,6 +52,7 @@ type controller struct {
 	blocked bool
 	dead    map[interface{}]bool // connection mutexes left locked by a goroutine that panicked
 	rec     *recorder
+	waited  bool // some schedule entry named a goroutine that was waiting for a connection mutex
 }
 
 var ctl *controller // nil outside a controlled run
@@ -177,6 +178,7 @@ func (c *controller) run(sched []int) {
 			c.release(w)
 		} else if !w.ended {
 			lib.Stat("sched:skip-blocked")
+			c.waited = true
 		}
 	}
 	fuel := 20000
